@@ -197,7 +197,7 @@ func (s *Solver) Solve(u *Unit, o *Obligation) *Result {
 		return r
 	}
 	u.mu.Lock() // the term builder is not goroutine-safe
-	asserts := append([]*Term{}, u.facts[:o.NFacts]...)
+	asserts := append(append([]*Term{}, u.axioms...), u.facts[:o.NFacts]...)
 	asserts = append(asserts, o.Cond)
 	if !o.IsCover {
 		asserts = append(asserts, tb.Not(o.Prop))
